@@ -49,22 +49,33 @@ theorem dupT_of_class {fx : Fixes} {f : File} (h : (!fx.dupNameErr && f.dupTermi
     exact Or.inr (by simpa using h)
 
 /-- a file in none of the classes `emptyAlts`, `dupTerminal`, `sepClash`, `helperCapture`,
-`reservedRule` is `Clean` -/
+`reservedRule` (as the driver reports them for the variant) is `Clean` -/
 theorem clean_of_classes {fx : Fixes} {f : File}
     (h1 : (f.ruleList.any fun r => r.alts.isEmpty) = false) (h2 : (!fx.dupNameErr && f.dupTerminal) = false)
-    (h3 : f.sepClash fx = false) (h4 : f.helperCapture fx = false) (h5 : f.reservedRule = false) :
+    (h3 : f.sepClash fx = false) (h4 : (!fx.helperClashErr && f.helperCapture fx) = false)
+    (h5 : (!fx.reservedErr && f.reservedRule) = false) :
     Clean fx f := by
-  refine ⟨?_, dupT_of_class h2, ⟨uses_inj_of_sepClash h3, fun u hu => (apart_of_helperCapture h4 u hu).1⟩,
-    fun u hu => (apart_of_helperCapture h4 u hu).2, ?_⟩
+  refine ⟨?_, dupT_of_class h2, uses_inj_of_sepClash h3, ?_, ?_⟩
   · intro r hr e
     have := List.any_eq_false.mp h1 r hr
     rw [e] at this
     simp at this
-  · intro n hn
-    unfold File.reservedRule at h5
-    have := List.any_eq_false.mp h5 n hn
-    simp only [List.contains_cons, List.contains_nil, Bool.or_false, Bool.or_eq_true, beq_iff_eq, not_or] at this
-    exact ⟨this.1, this.2.1, this.2.2⟩
+  · cases hf : fx.helperClashErr with
+    | true => exact Or.inl rfl
+    | false =>
+      rw [hf] at h4
+      exact Or.inr (apart_of_helperCapture (by simpa using h4))
+  · cases hf : fx.reservedErr with
+    | true => exact Or.inl rfl
+    | false =>
+      rw [hf] at h5
+      right
+      have h5' : f.reservedRule = false := by simpa using h5
+      intro n hn
+      unfold File.reservedRule at h5'
+      have := List.any_eq_false.mp h5' n hn
+      simp only [List.contains_cons, List.contains_nil, Bool.or_false, Bool.or_eq_true, beq_iff_eq, not_or] at this
+      exact ⟨this.1, this.2.1, this.2.2⟩
 
 theorem refSafe_of_classes {fx : Fixes} {f : File}
     (hg : (!fx.groupErr && f.allRefs.any SymRef.isGroup) = false)
@@ -107,8 +118,15 @@ theorem safe_of_classes {fx : Fixes} {f : File}
     (hg : (!fx.groupErr && f.allRefs.any SymRef.isGroup) = false)
     (hy : (!fx.greedyErr && f.allRefs.any SymRef.isGreedy) = false)
     (hm : (!fx.modifiersErr && f.allRefs.any SymRef.badModifiers) = false)
-    (h4 : (!fx.dupNameErr && f.dupTerminal) = false) (h5 : f.selfHelper fx = false) : Safe fx f := by
-  refine ⟨?_, ?_, ?_, refSafe_of_classes hg hy hm, ?_, dupT_of_class h4, h5⟩
+    (h4 : (!fx.dupNameErr && f.dupTerminal) = false) (h5 : (!fx.helperClashErr && f.selfHelper fx) = false) :
+    Safe fx f := by
+  have h5' : fx.helperClashErr = true ∨ f.selfHelper fx = false := by
+    cases hf : fx.helperClashErr with
+    | true => exact Or.inl rfl
+    | false =>
+      rw [hf] at h5
+      exact Or.inr (by simpa using h5)
+  refine ⟨?_, ?_, ?_, refSafe_of_classes hg hy hm, ?_, dupT_of_class h4, h5'⟩
   · cases hb : f.big u32Max with
     | false => exact Or.inr rfl
     | true =>
